@@ -48,7 +48,7 @@ EXC_BASES = {
     'StopIteration': 'Exception', 'AssertionError': 'Exception',
     'OSError': 'Exception', 'struct.error': 'Exception',
     'KeyboardInterrupt': 'BaseException', 'GeneratorExit': 'BaseException',
-    'NameError': 'Exception',
+    'NameError': 'Exception', 'UnboundLocalError': 'NameError',
 }
 
 
@@ -309,6 +309,7 @@ class Engine:
         self.cur_mod = self.mod
         self.cur_cls = None
         self.floor_terms = []          # witness candidates for ExistsInt
+        self.local_stack = []
 
     # ------------------------------------------------------------------
     def fresh(self, prefix, sort):
@@ -936,8 +937,22 @@ class Engine:
     def ex_Name(self, e, st):
         if e.id in st.env:
             return [(st, st.env[e.id])]
+        if self.local_stack and e.id in self.local_stack[-1]:
+            # a local of this function that is not bound on this path
+            return [(st, Raised(self.make_exc('UnboundLocalError', node=e)))]
         v = self.global_name(e.id, e, st)
         return [(st, v)]
+
+    @staticmethod
+    def locals_of(fdef):
+        names = set()
+        for n in ast.walk(fdef):
+            if isinstance(n, ast.Name) and isinstance(n.ctx, ast.Store):
+                names.add(n.id)
+        for n in ast.walk(fdef):
+            if isinstance(n, (ast.Global, ast.Nonlocal)):
+                names -= set(n.names)
+        return names
 
     def global_name(self, name, node, st):
         mod = self.cur_mod
@@ -2124,10 +2139,12 @@ class Engine:
         if self.inline_depth > 12:
             raise Unsupported(node, 'inline depth (recursion?) at %s' % qual)
         st.env = params
+        self.local_stack.append(self.locals_of(fdef))
         try:
             self.number_loops(fdef)
             outs = self.exec_block(fdef.body, st)
         finally:
+            self.local_stack.pop()
             self.inline_depth -= 1
             self.cur_mod, self.cur_cls = saved
         res = []
@@ -2155,10 +2172,12 @@ class Engine:
         self.cur_mod, self.cur_cls = mod, clsname
         st.env = env
         self.inline_depth += 1
+        self.local_stack.append(self.locals_of(fdef) - set(cenv))
         try:
             self.number_loops(fdef)
             outs = self.exec_block(fdef.body, st)
         finally:
+            self.local_stack.pop()
             self.inline_depth -= 1
             self.cur_mod, self.cur_cls = saved
         res = []
